@@ -685,7 +685,21 @@ class Interp:
                     return False
                 return False
             return True
-        return ok_block(st.body) and ok_block(st.orelse)
+        ok = ok_block(st.body) and ok_block(st.orelse)
+        if ok:
+            # both arms are EXECUTED when the conditional is merged: a call that may write to the heap (a setter, a
+            # method of an object) would leave the effects of both arms behind - only known-pure calls may be merged
+            for b in (st.body, st.orelse):
+                for s_ in b:
+                    for n in ast.walk(s_):
+                        if isinstance(n, ast.Call) and not _merge_safe_call(n):
+                            return False
+        if ok and os.environ.get("PYVC_LOG_MERGE_CALLS"):
+            names = sorted({ast.unparse(n.func) for b in (st.body, st.orelse) for s_ in b for n in ast.walk(s_) if isinstance(n, ast.Call)})
+            if names:
+                with open(os.environ["PYVC_LOG_MERGE_CALLS"], "a") as f:
+                    f.write(" ".join(names) + "\n")
+        return ok
 
     def _visible_lists(self, env):
         out = {}
@@ -790,7 +804,12 @@ class Interp:
 
     def st_Assert(self, st, env):
         c = self.truth(self.eval(st.test, env))
-        if self.ctx.merge_mode and not isinstance(c, bool):
+        may_raise = getattr(self.ctx, "asserts_may_raise", False)
+        if self.ctx.merge_mode and may_raise and self.ctx.guards and c is not True:
+            # the contract allows this function to reject its input: a failing assert is an OUTCOME (a raise path),
+            # not an obligation - the enclosing conditional cannot be merged, the path forks instead
+            raise Unsupported("cannot merge: assertion that may fail inside a conditional of a function allowed to raise")
+        if self.ctx.merge_mode and not isinstance(c, bool) and not may_raise:
             # inside a summarised loop body an assertion cannot end the path for one index only: it becomes
             # an obligation at the arbitrary index (guards -> condition), then a fact
             g = [ops.as_bool_term(x) for x in self.ctx.guards]
@@ -803,7 +822,7 @@ class Interp:
                 self.ctx.check(f"assert_holds[{fn}#{k}]", goal)
             self.ctx.facts.append(goal)
             return
-        if self.ctx.merge_mode and c is False and self.ctx.guards:
+        if self.ctx.merge_mode and c is False and self.ctx.guards and not may_raise:
             g = [ops.as_bool_term(x) for x in self.ctx.guards]
             fn = env.func._qualname if env.func is not None else "<module>"
             k = env.func._assert_ordinal(st) if env.func is not None else 0
@@ -1991,6 +2010,22 @@ def _join_dtype(a, b):
     if a == b:
         return a
     return "int"
+
+
+_PURE_NAMES = {"round", "print", "str", "float", "int", "bool", "min", "max", "abs", "len", "isinstance", "sum", "range", "list", "tuple"}
+_PURE_NP = {"zeros", "ones", "array", "minimum", "maximum", "abs", "where", "round", "sum", "isnan", "zeros_like", "ones_like", "full", "clip"}
+
+
+def _merge_safe_call(n):
+    f = n.func
+    if isinstance(f, ast.Name):
+        return f.id in _PURE_NAMES
+    if isinstance(f, ast.Attribute):
+        if f.attr == "append":
+            return True   # appends to visible lists are merged element-wise (see _merge_if)
+        if isinstance(f.value, ast.Name) and f.value.id in ("np", "numpy", "math") and f.attr in _PURE_NP | {"floor", "ceil", "sqrt", "isnan"}:
+            return True
+    return False
 
 
 def _is_pure(node):
